@@ -2,15 +2,32 @@
 """Regenerates MANIFEST.json from the table below (kept next to the runner's metas.go)."""
 import json, subprocess
 checks = {
+ "C01": ("exploration", "bounded-exhaustive enumeration of SMTP connection scripts × naming × store policy × backend on the real session code, store compared with a reference model after every transaction",
+         "Every connection script of the bounded grammar is run on a live in-process session; after every transaction end all mailboxes are compared with the model.", "Trusted: reply classes as the observable of acceptance; model.SimpleMailbox for the plain addresses used.", "3.C01"),
+ "C02": ("exploration", "bounded-exhaustive enumeration of message bodies (token sequences + size ladder) through real SMTP and all four read interfaces, inside synctest bubbles",
+         "Every body of the bounded alphabet is transmitted and read back through store, REST, web UI and POP3 and compared byte-wise modulo line-ending normalisation.", "Trusted: client dot-stuffs after CRLF and bare LF; NormLE canonical form; testing/synctest quiescence.", "3.C02"),
+ "C03": ("exploration", "bounded-exhaustive enumeration of SMTP command-line sequences (full tree + explicit-state search) and of every byte-offset cut of valid dialogues, real session code in synctest bubbles vs envelope model",
+         "All command sequences to the bound, one well-formed reply per line decided by exact quiescence, gating of MAIL/RCPT/DATA, store equals deliveries to recipients accepted since the latest MAIL; every cut offset of three dialogues in lock-step and pipelined mode.", "Trusted: replies the statement leaves open are not pinned; net.Pipe as the connection; synctest's durably-blocked notion; go1.26.8.", "3.C03"),
+ "C04": ("exploration", "exhaustive enumeration of all address strings up to a length over a 13-symbol alphabet in three naming modes, metamorphic relations on the real naming functions; delivery/read agreement on live interfaces",
+         "Every string to the bound is fed to the real NewRecipient/ExtractMailbox and the relations the statement names are checked; structured addresses are delivered and fetched by address and by name through REST, web UI and POP3.", "Trusted: relations only, no expected values.", "3.C04"),
+ "C05": ("exploration", "exhaustive cross product of policy configurations (loaded through the real config.Process) × probe domains on the real predicates and live sessions; exhaustive pattern×string enumeration of the wildcard matcher vs a reference",
+         "Full product of switches and lists at predicate level, live sessions for all size-≤1 lists × recipient limits × orders, all pattern/string pairs to the bound.", "Trusted: model.Policy transcribes doc/config.md.", "3.C05"),
+ "C06": ("exploration", "exhaustive enumeration of limit × size-boundary ladder × SIZE-parameter variants × backend on live sessions",
+         "Each case is a live session with a follow-up transaction; accept/refuse and the store are compared with the rule, with an indifference band between LF and CRLF size.", "Trusted: boundary ladder stands for all sizes.", "3.C06"),
  "C07": ("exploration", "bounded-exhaustive enumeration of store operation sequences + explicit-state search, real stores vs reference model",
-         "Every operation sequence over a colliding 22-op alphabet up to the stated depth is executed on the real mem and file stores and compared step by step with an ordered-mailbox model; deeper layers by explicit-state search on the abstract state. Exhaustive within the bound, which is what a history-quantified property needs and a sampled test cannot give.",
-         "Trusted: model.Store as the specification; ids abstracted by arrival ordinal; I/O errors outside the model.", "3.C07"),
+         "Every operation sequence over a colliding 22-op alphabet up to the stated depth is executed on the real mem and file stores and compared step by step with an ordered-mailbox model; deeper layers by explicit-state search on the abstract state; plus every op pair from an 11-message mailbox.", "Trusted: model.Store as the specification; ids abstracted by arrival ordinal; I/O errors outside the model.", "3.C07"),
  "C08": ("exploration", "bounded-exhaustive enumeration of sized delivery/removal histories × limit configurations, real stores vs eviction model",
-         "All histories of sized adds/removes/purges up to the bound under every combination of cap and size limit are run on the real stores and compared with the eviction model after every step; a crash of the enforcer goroutine is caught as a process crash of the worker.",
-         "Trusted: model.Store eviction rule (cap: newest kept; size: oldest-first across the store until the limit is met); mem eviction is synchronous with AddMessage.", "3.C08"),
+         "All histories of sized adds/removes/purges up to the bound under every combination of cap and size limit are run on the real stores and compared with the eviction model after every step; a crash of the enforcer goroutine is caught as a process crash of the worker.", "Trusted: model.Store eviction rule; mem eviction is synchronous with AddMessage.", "3.C08"),
  "C10": ("exploration", "bounded-exhaustive enumeration of store histories with close/reopen at every position, file store vs model",
-         "All sequences over the C07 alphabet plus reopen and retention-scan, reopen allowed at every position any number of times; reopen must be the identity on the model with concrete ids.",
-         "Trusted: restart is modelled as constructing a new file.Store on the same directory.", "3.C10"),
+         "All sequences over the C07 alphabet plus reopen and retention-scan, reopen allowed at every position any number of times; reopen must be the identity on the model with concrete ids.", "Trusted: restart is modelled as constructing a new file.Store on the same directory.", "3.C10"),
+ "C13": ("exploration", "bounded-exhaustive enumeration of POP3 command sequences with external mutations as events (full tree + explicit-state search), real session code in synctest bubbles vs POP3 snapshot model; every prefix doubles as the dropped-connection case",
+         "All sequences over a 59-element alphabet; STAT/LIST/UIDL/RETR/TOP/DELE/RSET pinned against the login-time snapshot; commit rule checked after every sequence.", "Trusted: AUTHORIZATION-state replies not pinned; synctest; go1.26.8.", "3.C13"),
+ "C14": ("exploration", "bounded-exhaustive enumeration of API call sequences mixed with deliveries × mailbox names × backend × base path through the real router and the bundled Go client",
+         "Every sequence over a 32-op alphabet; status, body and the store's own state after every call.", "Trusted: percent-encoding client; panics caught at ServeHTTP.", "3.C14"),
+ "C17": ("exploration", "exhaustive enumeration of Lua scripts from a handler grammar × SMTP dialogues on live sessions vs a hook-decision model",
+         "Every script of the grammar (singles+pairs quick, full product thorough) × 10 dialogues, plus Go listeners before/after the Lua one.", "Trusted: the grammar's declared semantics per variant.", "3.C17"),
+ "C18": ("exploration", "exhaustive enumeration of HTML / CSS / text token sequences through the real sanitiser, output re-parsed by an independent HTML parser and an independent CSS-Syntax-3 declaration parser",
+         "Every token sequence to the bound is sanitised and the re-parsed output checked for forbidden elements, handlers, javascript: URLs and non-allow-listed style properties; TextToHTML output must re-parse to the original text.", "Trusted: x/net/html as the browser's parser; the CSS oracle.", "3.C18"),
 }
 na = []
 import os
@@ -30,7 +47,7 @@ m = {
    "add_only": True,
  },
  "engines": [
-   {"name": "seqx", "path": "fw/seq.go", "serves_properties": sorted(checks), "kind_free_text": "bounded-exhaustive operation-sequence explorer with explicit-state deduplication over the real implementation, compared with Go reference models"},
+   {"name": "seqx", "path": "fw/seq.go", "serves_properties": sorted(checks), "kind_free_text": "bounded-exhaustive operation-sequence / input explorer with explicit-state deduplication over the real implementation, compared with Go reference models; sessions run in testing/synctest bubbles where exact quiescence is needed"},
  ],
  "checks": [],
  "not_applicable": na,
